@@ -57,6 +57,11 @@ type ConcState struct {
 	lists map[ssa.Value][]ssa.Value
 	// eqs: comparisons x == y between two values that a branch of this path decided (true: equal)
 	eqs map[[2]ssa.Value]bool
+	// ltags / vtags: what ConcCfg.ElemTag said about an element when it was put into an evident list, and about a
+	// register that was loaded from such an element (the rule's own description of the value at that moment - an
+	// argument index, say - which cannot be recomputed later, when the loop variables have moved on)
+	ltags map[ssa.Value][]string
+	vtags map[ssa.Value]string
 	// dyn: what an interface value holds on this path (ConcCfg.Init seeds it for parameters): its dynamic type and,
 	// for an integer-like payload, the value. Shared between the states of one exploration (never changed after Init).
 	dyn map[ssa.Value]DynFact
@@ -135,6 +140,14 @@ func (st *ConcState) retire(v ssa.Value) {
 	if l, ok := st.lists[v]; ok {
 		st.lists[g] = l
 		delete(st.lists, v)
+		if t, has := st.ltags[v]; has {
+			st.ltags[g] = t
+			delete(st.ltags, v)
+		}
+	}
+	if t, ok := st.vtags[v]; ok {
+		st.vtags[g] = t
+		delete(st.vtags, v)
 	}
 	for k, b := range st.eqs {
 		if k[0] == v || k[1] == v {
@@ -486,6 +499,18 @@ func (st *ConcState) clone() *ConcState {
 			n.eqs[k] = v
 		}
 	}
+	if len(st.ltags) > 0 {
+		n.ltags = make(map[ssa.Value][]string, len(st.ltags))
+		for k, v := range st.ltags {
+			n.ltags[k] = v
+		}
+	}
+	if len(st.vtags) > 0 {
+		n.vtags = make(map[ssa.Value]string, len(st.vtags))
+		for k, v := range st.vtags {
+			n.vtags[k] = v
+		}
+	}
 	for k, v := range st.ints {
 		n.ints[k] = v
 	}
@@ -774,6 +799,9 @@ type ConcCfg struct {
 	// (MaxIter+1)th time. The number of abandoned paths is reported through Cut.
 	MaxIter int
 	Cut     *int
+	// ElemTag describes a value at the moment it is put into an evident list (appended, stored into a slot); the
+	// description stays with the element and with every register later loaded from it (ConcState.TagOf).
+	ElemTag func(st *ConcState, v ssa.Value) string
 	// MaxLoop: with MaxIter == 0, how often a loop head may be re-entered before the exploration gives up (default 40).
 	MaxLoop int
 	// IterClosures: a call that is not explored inline and receives a function literal (e.g. record.Attrs(func…))
@@ -793,6 +821,7 @@ type ConcAlt struct {
 	Nils   map[ssa.Value]bool
 	Slices map[ssa.Value]SliceFact
 	Fields []FieldVal
+	// ElemTag (in ConcCfg): see there
 	// Lists: what a slice value holds after the instruction, element by element (ConcState.ListOf)
 	Lists map[ssa.Value][]ssa.Value
 }
@@ -1316,6 +1345,18 @@ func ConcPaths(fn *ssa.Function, cfg ConcCfg) (seqs []string, truncated bool) {
 							}
 							st.fmem[base+"."+FN(stt.Field(i))] = 0
 						}
+						// ... and its slices, pointers, maps, interfaces, functions and channels at nil
+						switch types.Unalias(stt.Field(i).Type()).Underlying().(type) {
+						case *types.Slice, *types.Pointer, *types.Map, *types.Interface, *types.Signature, *types.Chan:
+							if !cloned {
+								st = st.clone()
+								cloned = true
+								if st.fmem == nil {
+									st.fmem = map[string]int64{}
+								}
+							}
+							st.fmem[base+"."+FN(stt.Field(i))+nilFact] = 1
+						}
 					}
 				}
 			case *ssa.Store:
@@ -1561,6 +1602,9 @@ func ConcPaths(fn *ssa.Function, cfg ConcCfg) (seqs []string, truncated bool) {
 								ns.nils[x] = n
 							}
 							st = ns
+						} else if n, known := st.fieldNilOf(fa.X, fieldName(fa.X.Type(), fa.Field)); known {
+							st = st.clone()
+							st.nils[x] = n
 						}
 					}
 				}
@@ -2606,6 +2650,25 @@ func (st *ConcState) FieldValsOf(obj ssa.Value) map[string]ssa.Value {
 		}
 	}
 	return out
+}
+
+// fieldNilOf: is field `field` of the struct obj denotes known to be nil / non-nil on this path (through whole copies)?
+func (st *ConcState) fieldNilOf(obj ssa.Value, field string) (isNil, known bool) {
+	for hop := 0; hop < 6; hop++ {
+		key := st.fieldKey(obj, field)
+		if _, h := st.fvals[key]; h {
+			return false, false
+		}
+		if nv, h := st.fmem[key+nilFact]; h {
+			return nv == 1, true
+		}
+		src, copied := st.fvals[st.fieldKey(obj, "*")]
+		if !copied {
+			return false, false
+		}
+		obj = src
+	}
+	return false, false
 }
 
 // FieldOf reports what field `field` of the struct that obj denotes (an allocation, or a load of one) holds on this
